@@ -11,6 +11,7 @@ import (
 	"os"
 	"path/filepath"
 	"testing"
+	"time"
 
 	"github.com/rpcpool/yellowstone-faithful/zzverif/vh"
 )
@@ -62,7 +63,19 @@ func TestVerif_C05(t *testing.T) {
 	specs := vc05Specs(rng, 1, thorough, nCoq)
 	for _, spec := range specs {
 		idx := filepath.Join(dir, spec.Name+".idx")
-		res := vc05Exercise(spec, idx)
+		limit := 2 * time.Minute
+		if thorough {
+			limit = 12 * time.Minute
+		}
+		done := make(chan *vc05Result, 1)
+		go func() { done <- vc05Exercise(spec, idx) }()
+		var res *vc05Result
+		select {
+		case res = <-done:
+		case <-time.After(limit):
+			rep.Fail("hang", fmt.Sprintf("one Writer/Reader run did not finish within %v", limit), map[string]interface{}{"spec": spec.Name, "seed": seed, "signatures": len(spec.Sigs)})
+			continue
+		}
 		if err := vc05Absorb(rep, cases, spec, res, idx); err != nil {
 			t.Fatalf("%v", err)
 		}
